@@ -874,3 +874,121 @@ def burst(prog, ex, P, tier):
     s.run(120)
     tr = finish(ex, s)
     apply(tr, P, cap=n + 2)
+
+
+# ---- blocking API (C17) ----------------------------------------------------------------------
+def blocking(prog, ex, P, tier):
+    """blocking_tell / blocking_ask (without and with timeout) and the deprecated aliases issued
+    from a "thread" (a task whose whole call is one step while everybody else keeps being
+    scheduled), mixed with an async sender; actor live / slow / full mailbox / stopped"""
+    v = pick(ex, [
+        dict(cap=1, hy=0, ops=[("btell", "A", 1), ("bask", "A", 2)], other=[("tell", "A", 3)], end="drop"),
+        dict(cap=1, hy=1, ops=[("btell", "A", 1), ("btell", "A", 2), ("bask", "A", 3)], other=None, end="drop"),
+        dict(cap=2, hy=0, ops=[("bask", "A", 1), ("btell", "A", 2)], other=[("ask", "A", 3)], end="stop"),
+        dict(cap=1, hy=0, ops=[("tell_blocking", "A", 1, 5), ("ask_blocking", "A", 2, 5)], other=None, end="drop"),
+        dict(cap=1, hy=0, ops=[("btell_t", "A", 1, 50), ("bask_t", "A", 2, 50)], other=[("tell", "A", 3)], end="drop"),
+        dict(cap=1, hy="tick", ops=[("bask_t", "A", 1, 5)], other=None, end="drop"),            # actor never answers in time
+        dict(cap=1, hy="tick", ops=[("btell", "A", 1), ("btell_t", "A", 2, 5), ("btell_t", "A", 3, 5)], other=None, end="drop"),   # mailbox stays full
+        dict(cap=1, hy=0, ops=[("btell", "A", 1), ("yield",), ("btell", "A", 2), ("bask", "A", 3), ("btell_t", "A", 4, 9), ("bask_t", "A", 5, 9)], other=None, end="killfirst"),
+    ], "variant")
+    s = Sim(prog, ex)
+    w = s.w
+    s.spawn_actor(Script("A", handler_yields={"*": v["hy"]}), v["cap"])
+    th = s.client("thread", v["ops"], ["A"])
+    if v["other"]:
+        s.client("c2", v["other"], ["A"])
+    if v["end"] == "stop":
+        s.client("cs", [("stop", "A")], ["A"])
+    if v["end"] == "killfirst":
+        s.client("ck", [("kill", "A")], ["A"])
+    s.drop_main("A")
+    if v["hy"] == "tick":
+        ticks = [3]
+        s.extra_actions.append((lambda: ticks[0] > 0 and False, lambda: None, "unused"))
+    s.run(120)
+    tr = finish(ex, s)
+    for mon in (M.mon_c01, M.mon_c02, M.mon_c03, M.mon_c13):
+        try:
+            mon(tr)
+        except Violation as e:
+            raise Violation("C17", "blocking API: %s: %s" % (e.prop, e.msg), e.detail)
+    ops = tr.ops()
+    for o in ops.values():
+        k = o["op"][0]
+        if k not in ("btell", "bask", "btell_t", "bask_t", "tell_blocking", "ask_blocking"):
+            continue
+        res = o["result"]
+        has_to = k in ("btell_t", "bask_t")
+        if has_to:
+            ex.check("C17", res != "BLOCKED-FOREVER", "%s with a timeout never returns" % k)
+            # returns by the deadline: the virtual clock at return is at most start + timeout
+            start_now = tr.ev[o["start"]].get("now_raw", 0)
+            end_now = tr.ev[o["done"]].get("now_raw", 0) if o["done"] is not None else None
+            if end_now is not None and isinstance(start_now, int) and isinstance(end_now, int):
+                ex.check("C17", end_now <= start_now + o["op"][3], "%s returned at t=%d, deadline was t=%d" % (k, end_now, start_now + o["op"][3]))
+                if M.rcode(res) == "timeout":
+                    ex.check("C17", end_now >= start_now + o["op"][3], "%s reported Timeout before its deadline" % k)
+        if k in ("tell_blocking", "ask_blocking"):
+            ex.check("C17", len(w.timeouts) == 0, "the deprecated alias did not ignore its timeout argument")
+            ex.check("C17", M.rcode(res) != "timeout", "the deprecated alias timed out")
+        if k in ("bask", "bask_t", "ask_blocking") and M.rcode(res) == "ok":
+            ex.check("C17", M.okval(res) == M.reply_of(o["op"][2]), "blocking ask returned %s, not the reply to its request" % res)
+    # timers created by the timeout variants carry the caller's duration
+    exp = [o["op"][3] for o in sorted(ops.values(), key=lambda x: x["start"]) if o["op"][0] in ("btell_t", "bask_t") and not str(o["result"]).startswith("skipped")]
+    ex.check("C17", list(w.timeouts) == exp[:len(w.timeouts)] and len(w.timeouts) == len(exp), "timers %s, callers passed %s" % (list(w.timeouts), exp))
+
+
+# ---- feature equivalence (C18) -----------------------------------------------------------------
+def projection(tr):
+    """what a user can observe, per component (no global order): each client's results in
+    program order, each actor's hook sequence with arguments/outcomes, each task's end state,
+    the handling order, dead letters"""
+    w = tr.w
+    out = []
+    for (c, i), o in sorted(tr.ops().items()):
+        out.append(("op", c, i, tuple(map(str, o["op"])), str(o["result"]) if o["done"] is not None else "PENDING"))
+    for a in sorted(w.actors):
+        seq = tuple((e["ev"], e["hook"], str(e.get("msg", e.get("killed", e.get("out", ""))))) for e in tr.ev
+                    if e["ev"] in ("hook_enter", "hook_exit") and e.get("actor") == a)
+        out.append(("hooks", a, seq))
+        t = w.actors[a]["task"]
+        out.append(("end", a, t.state, w.describe(t.result) if t.state == "finished" else ""))
+    out.append(("dead", tuple(sorted((e["op"], e["reason"]) for e in tr.ev if e["ev"] == "dead_letter"))))
+    return tuple(out)
+
+
+def feature_suite(prog, ex, P, tier):
+    v = pick(ex, ["tell-ask-drop", "two-clients-stop", "kill", "on_run", "timeout", "on_run_err", "handler_panic", "on_start_err"], "variant")
+    s = Sim(prog, ex)
+    w = s.w
+    sc = Script("A")
+    cap = 1
+    if v == "on_run":
+        sc.on_run = [("true", 1), ("false", 0)]
+    if v == "timeout":
+        sc.handler_yields = {"*": "tick"}
+    if v in ("on_run_err", "handler_panic", "on_start_err"):
+        sc = script_for(v, 0)
+    s.spawn_actor(sc, cap)
+    if v == "tell-ask-drop":
+        s.client("c1", [("tell", "A", 1), ("ask", "A", 2)], ["A"])
+    elif v == "two-clients-stop":
+        s.client("c1", [("tell", "A", 1)], ["A"])
+        s.client("c2", [("ask", "A", 2)], ["A"])
+        s.client("cs", [("stop", "A")], ["A"])
+    elif v == "kill":
+        s.client("c1", [("tell", "A", 1), ("ask", "A", 2)], ["A"])
+        s.client("ck", [("kill", "A")], ["A"])
+    elif v == "on_run":
+        s.client("c1", [("tell", "A", 1), ("yield",), ("ask", "A", 2)], ["A"])
+    elif v == "timeout":
+        s.client("c1", [("ask_t", "A", 1, 3)], ["A"])
+        ticks = [2]
+        s.extra_actions.append((lambda: ticks[0] > 0 and any(e["ev"] == "op_start" for e in ex.events),
+                                lambda: (ticks.__setitem__(0, ticks[0] - 1), w.advance(2)), "clock-advance"))
+    else:
+        s.client("c1", [("ask", "A", 1), ("ask", "A", 2)], ["A"])
+    s.drop_main("A")
+    s.run(90)
+    tr = finish(ex, s)
+    ex.projection = projection(tr)
